@@ -622,6 +622,8 @@ def r8_ext_arms(ctx, m, me) -> None:
         for p in arm["paths"]:
             for c in _node_calls(p):
                 opv = arg_of(ctx, c, "operation", m, me)
+                if opv is not None:
+                    opv = ast.parse(unold(opv), mode="eval").body        # (a value computed before a later call keeps an old_ marker)
                 e = tmatch(opv, T("model.CustomOp(model.Apply(E_name, E_args))")) if opv is not None else None
                 sg = arg_of(ctx, c, "signature", m, me)
                 out.append((unold(e["E_name"]) if e else None, unold(e["E_args"]) if e else None, unold(sg) if sg is not None else None))
